@@ -70,6 +70,22 @@ def cases(draw, lang):
     t = draw(tg.types(u, R, depth=draw(st.integers(1, 3)), force_generic=True, star=False, proj=(mode == 'same')))
     if t is None or t[0] != 'i' or not R.wf(t):
         t = u.builtins[1][0]
+    if draw(st.integers(0, 7)) == 0:
+        # a lone (possibly bounded) type variable as pattern
+        tt = draw(tg.types(u, R, depth=2, proj=False))
+        if tt is None or rm.is_proj(tt):
+            tt = u.builtins[1][0]
+        bk = draw(st.sampled_from(['none', 'super', 'unrelated', 'self']))
+        bound = None
+        if bk == 'super':
+            ups = [x for x in R.all_supers(tt) if not rm.has_kind(x, ('cap',))] if tt[0] in ('i', 'c', 'b') else []
+            bound = draw(st.sampled_from(ups)) if ups else None
+        elif bk == 'unrelated':
+            others = [x for x in u.ground_base() if not R.sub(tt, x)]
+            bound = draw(st.sampled_from(others)) if others else None
+        elif bk == 'self':
+            bound = tt
+        return u, tt, ('v', 'T', bound), mode, 'lone-variable-' + bk
     base = t
     if mode == 'super':
         ups = [x for x in R.all_supers(t) if x[0] == 'i' and not rm.has_kind(x, ('cap',))]
